@@ -131,8 +131,11 @@ fn run_once(c: &Case, hash_seed: u64, out: &mut Outcome) -> Option<Vec<Vec<(Vec<
     out.steps += 1;
     let list = match res {
         Ok(l) => l,
-        Err(exec::Res::Err(_)) => {
+        Err(exec::Res::Err(e)) => {
             out.count("c13.err", 1);
+            let mut d = crate::prng::Digest(out.digest);
+            d.str(&e);
+            out.digest = d.0;
             return None;
         }
         Err(_) => {
@@ -152,6 +155,11 @@ fn run_once(c: &Case, hash_seed: u64, out: &mut Outcome) -> Option<Vec<Vec<(Vec<
             ntx += 1;
             let tx = batch.get(ti);
             let raw = tx.to_bytes();
+            {
+                let mut d = crate::prng::Digest(out.digest);
+                d.bytes(&raw);
+                out.digest = d.0;
+            }
             let v = match TxView::parse(&raw) {
                 Ok(v) => v,
                 Err(e) => {
